@@ -238,7 +238,7 @@ func (g *G) literal(max Cls) (string, Cls) {
 		return pick(t, []string{"0", "1", "-1", "2", "0.5", "10", "100", "-0.25", "3", "1e3"}, "lit"), S
 	case 1:
 		if max >= I {
-			return pick(t, []string{"0.1", "1e-3", "3.3", "1e10", "-7.7", "2.5e-7"}, "liti"), I
+			return pick(t, []string{"0.1", "1e-3", "3.3", "-7.7", "2.5e-7", "33.3"}, "liti"), I
 		}
 		return "4", S
 	case 2:
